@@ -1122,11 +1122,27 @@ setof(Template, Goal, Solution) :-
           '$fail'
        ;  '$head_is_dynamic'(Module, H) ->
           '$clause_body_is_valid'(B),
-          Module:'$clause'(H, B)
+          '$clause_snapshot'(Module, H, B)
        ;  throw(error(permission_error(access, private_procedure, Name/Arity),
                       clause/2))
        )
     ;  throw(error(type_error(callable, H), clause/2))
+    ).
+
+% clause/2 follows the logical update view: the clauses matching Head :- Body are
+% collected when the goal is called; changes of the predicate made while the goal has
+% solutions left do not affect them. (The store '$clause'/2 is static extensible code
+% whose choice points do not survive asserta/retract.)
+'$clause_snapshot'(Module, H, B) :-
+    findall(H-B, Module:'$clause'(H, B), HBs),
+    '$clause_member'(HBs, H-B).
+
+'$clause_member'([HB0 | HBs], HB) :-
+    (  HBs == [] ->
+       HB = HB0
+    ;  (  HB = HB0
+       ;  '$clause_member'(HBs, HB)
+       )
     ).
 
 %% clause(Head, Body).
@@ -1145,7 +1161,7 @@ clause(H, B) :-
           '$fail'
        ;  '$head_is_dynamic'(user, H) ->
           '$clause_body_is_valid'(B),
-          '$clause'(H, B)
+          '$clause_snapshot'(builtins, H, B)
        ;  throw(error(permission_error(access, private_procedure, Name/Arity),
                       clause/2))
        )
